@@ -49,6 +49,7 @@ type req struct {
 	Transport  string `json:"transport"` // "" / "adapter" | "nats" (nats.go)
 	Sizes      []int  `json:"sizes"`     // NATS: len(data) per caller
 	Share      []int  `json:"share"`     // NATS: caller reuses the FContext of an earlier caller
+	BadOp      []int  `json:"badop"`     // NATS: 1 = the caller's FContext gets a malformed _opid header
 	Reserve    int    `json:"reserve"`   // NATS: the last k callers are started only once the transport is closed
 }
 
